@@ -49,9 +49,6 @@ Fixpoint to_pxs (l : list Z) : list px :=
   end.
 Definition of_pxs (l : list px) : list Z := flat_map px_list l.
 
-Definition first5 (l : list N) : list N := firstn 5 l.
-(* one verdict per case: 0 = agrees, n > 0 = 1 + index of the first disagreeing pixel *)
-Definition verdict (l : list N) : N := match l with [] => 0%N | i :: _ => N.succ i end.
 
 (* ------------------------------------------------------------------ model-level search (used when a proof no longer checks):
    the byte pairs / bytes at which the statement of an exhaustive lemma is false *)
@@ -73,7 +70,6 @@ Definition search_lut_monotone : list Z :=
   search_bytes (fun c => (c =? 255) || ((lut_into_linear_ch c <=? lut_into_linear_ch (c + 1)) && (lut_from_linear_ch c <=? lut_from_linear_ch (c + 1)))).
 
 (* draw_pixmap with BlendMode::Xor (clip_group), alpha channel: nearest integer of the exact value *)
-Definition xor_alpha_u8 (sa da : Z) : Z := round_div255 (sa * (255 - da) + da * (255 - sa)).
 Definition xor_alpha_table (d : Z) : list Z := flat_map (fun sa => map (fun s => xor_alpha_u8 sa d) bytes) bytes.
 
 (* ------------------------------------------------------------------ hand-written SPECIFICATION kernels (SVG 1.1 sect. 15.10 / 15.11), same operation order
